@@ -40,6 +40,8 @@ type wParams struct {
 	Timeout   int    `json:"timeout,omitempty"` // seconds; 0 = default 20
 	Columns   int    `json:"columns,omitempty"`
 
+	Stop      *wStop       `json:"stop,omitempty"`   // user stop pinned to a scheduling point
+	Pauses    []wPause     `json:"pauses,omitempty"` // pause/resume cycles on the client
 	Mitm      *wMitm       `json:"mitm,omitempty"` // field-aware substitution in one protocol line
 	MsgFaults []wMsgFault  `json:"msgfaults,omitempty"`
 	Local     *wLocalFault `json:"local,omitempty"`
@@ -54,6 +56,21 @@ type wParams struct {
 	Tree   string `json:"tree"`             // source tree recipe
 	DstPre string `json:"dstpre,omitempty"` // destination pre-population recipe
 	Seg    string `json:"seg,omitempty"`    // "", "byte", "coalesce", "cut:<c2s|s2c>:<offset>"
+}
+
+// wStop is a user stop (client: Ctrl-C + a stop choice, i.e. StopTransferringFiles; server: SIGINT)
+// delivered just before scheduler step Step.
+type wStop struct {
+	Side   string `json:"side"` // client | server
+	Delete bool   `json:"delete,omitempty"`
+	Step   int    `json:"step"`
+}
+
+// wPause pauses the client's transfer just before scheduler step Step and resumes it ForMs of
+// virtual time later (what the stop/continue prompt does: pauseTransferringFiles ... resumeTransferringFiles).
+type wPause struct {
+	Step  int `json:"step"`
+	ForMs int `json:"for_ms"`
 }
 
 // wMitm replaces one field of the Line-th protocol line of a direction (0-based, counting lines that
@@ -451,9 +468,16 @@ type world struct {
 	cliStartAt  time.Duration
 	cliDoneAt   time.Duration
 	cliDone     bool
+	srvDoneStep int
+	cliDoneStep int
 	uploadRes   <-chan error
 	uploadErr   string
 	probeN      int
+	stopAt      time.Duration
+	stopHit     bool
+	stopTransfer *trzszTransfer
+	pauseHits   int
+	pauseLog    []pauseRec
 
 	hookErr func(name string, args ...any) error
 	// hostile-peer support (C09, C12): doctored source records instead of a scan of the source tree,
@@ -485,6 +509,12 @@ type worldResult struct {
 	Alive        []string
 	SrvDoneAt    time.Duration
 	CliDone      bool
+	StopAt       time.Duration
+	StepsAtDone  int    // scheduler step at which the later of the two sides was done
+	ClientSent   []byte // everything the client wrote towards the server (in-band and tunnel)
+	ServerSent   []byte
+	StopHit      bool // the stop arrived while a transfer was in progress on that side
+	StopCleanTimeout time.Duration
 	CliDoneAt    time.Duration
 	End          time.Duration
 	Transferring bool // filter still thinks a transfer is in progress at the end
@@ -813,6 +843,7 @@ func (w *world) startServer() {
 			}
 			transfer.cleanup()
 			w.srvErr, w.srvDone, w.srvDoneAt = err, true, vs.Elapsed()
+			w.srvDoneStep = vs.StepNow()
 		})
 		return
 	}
@@ -845,6 +876,7 @@ func (w *world) startServer() {
 		}
 		transfer.cleanup()
 		w.srvErr, w.srvDone, w.srvDoneAt = err, true, vs.Elapsed()
+		w.srvDoneStep = vs.StepNow()
 	})
 }
 
@@ -918,7 +950,16 @@ func decodeLines(stream []byte, typ string) []string {
 }
 
 func (w *world) result(s *vs.Sched) *worldResult {
-	r := &worldResult{Sched: s, SrvDone: w.srvDone, SrvDoneAt: w.srvDoneAt, CliDone: w.cliDone, CliDoneAt: w.cliDoneAt}
+	r := &worldResult{Sched: s, SrvDone: w.srvDone, SrvDoneAt: w.srvDoneAt, CliDone: w.cliDone, CliDoneAt: w.cliDoneAt, StopAt: w.stopAt, StopHit: w.stopHit}
+	r.StepsAtDone = w.srvDoneStep
+	if w.cliDoneStep > r.StepsAtDone {
+		r.StepsAtDone = w.cliDoneStep
+	}
+	if w.stopTransfer != nil {
+		r.StopCleanTimeout = w.stopTransfer.cleanTimeout
+	} else if w.p.Stop != nil && w.p.Stop.Side == "server" {
+		r.StopCleanTimeout = w.srvTransfer.cleanTimeout
+	}
 	if w.srvErr != nil {
 		r.SrvErr = w.srvErr.Error()
 	}
@@ -942,6 +983,12 @@ func (w *world) result(s *vs.Sched) *worldResult {
 		}
 	}
 	for _, st := range cliStreams {
+		r.ClientSent = append(r.ClientSent, st...)
+	}
+	for _, st := range srvStreams {
+		r.ServerSent = append(r.ServerSent, st...)
+	}
+	for _, st := range cliStreams {
 		if l := decodeLines(st, "EXIT"); len(l) > 0 {
 			r.ClientExit = l[len(l)-1]
 		}
@@ -962,6 +1009,75 @@ func (w *world) result(s *vs.Sched) *worldResult {
 	r.DstFull = snapshotFull(w.dstRoot)
 	r.Outside = outsideSnapshot(w.root)
 	return r
+}
+
+// installEvents registers the user events of this execution with the scheduler.
+func (w *world) installEvents() {
+	type ev struct {
+		step int
+		f    func()
+	}
+	var evs []ev
+	if st := w.p.Stop; st != nil {
+		evs = append(evs, ev{st.Step, func() {
+			w.stopAt = vs.Elapsed()
+			if st.Side == "server" {
+				w.stopHit = !w.srvDone
+				w.srvTransfer.stopTransferringFiles(false) // handleServerSignal
+				return
+			}
+			if t := w.filter.transfer.Load(); t != nil {
+				w.stopHit = true
+				w.stopTransfer = t
+			}
+			w.filter.StopTransferringFiles(st.Delete)
+		}})
+	}
+	for i := range w.p.Pauses {
+		pa := w.p.Pauses[i]
+		evs = append(evs, ev{pa.Step, func() {
+			t := w.filter.transfer.Load()
+			if t == nil {
+				return
+			}
+			w.pauseHits++
+			w.pauseLog = append(w.pauseLog, pauseRec{Begin: vs.Elapsed(), C2SLen: w.clientSentLen()})
+			idx := len(w.pauseLog) - 1
+			t.pauseTransferringFiles()
+			vs.AddTimer(time.Duration(pa.ForMs)*time.Millisecond, func() {
+				// the prompt handler: continue (only if the transfer is still the current one)
+				vs.Peek(func() {
+					w.pauseLog[idx].End = vs.Elapsed()
+					w.pauseLog[idx].C2SLenEnd = w.clientSentLen()
+					if cur := w.filter.transfer.Load(); cur == t {
+						w.pauseLog[idx].BufBefore = t.bufferSize.Load()
+						t.resumeTransferringFiles()
+					}
+				})
+			})
+		}})
+	}
+	sort.SliceStable(evs, func(i, j int) bool { return evs[i].step < evs[j].step })
+	for _, e := range evs {
+		vs.InjectAt(e.step, e.f)
+	}
+}
+
+// clientSentLen is the number of bytes the client has written towards the server so far.
+func (w *world) clientSentLen() int {
+	n := len(w.c2s[0].Written)
+	for _, c := range vs.NetConns() {
+		if c.Name == "client.client" {
+			n += len(c.Sent())
+		}
+	}
+	return n
+}
+
+type pauseRec struct {
+	Begin, End        time.Duration
+	C2SLen, C2SLenEnd int
+	BufBefore         int64
 }
 
 // probe checks transparency after a transfer: text printed by the remote shell must reach the
@@ -1056,12 +1172,14 @@ func runWorldWith(p wParams, cfg vs.Config, prefix, prefixN []int, extra func(w 
 			extra(w)
 		}
 		w.startServer()
+		w.installEvents()
 		if w.filter != nil {
 			vs.GoDaemon("monitor", func() {
 				vs.WaitUntil("monitor.start", func() bool { return w.filter.IsTransferringFiles() || w.srvDone })
 				w.cliStartAt = vs.Elapsed()
 				vs.WaitUntil("monitor.end", func() bool { return !w.filter.IsTransferringFiles() })
 				w.cliDoneAt, w.cliDone = vs.Elapsed(), true
+				w.cliDoneStep = vs.StepNow()
 			})
 		}
 		res0Quiet := vs.WaitSettled(func() bool {
